@@ -415,7 +415,7 @@ type c13Forgery struct {
 
 var c13Kinds = []string{
 	"valid", "fake-state-own-tree", "real-state-own-tree", "fake-state-real-path", "foreign-block-proof", "rekey-node", "rekey-node",
-	"grafted-root", "wrong-previous", "forged-block-height-gap", "forged-block-previous-hash", "forged-block-previous-not-older",
+	"grafted-root", "appended-root", "wrong-previous", "forged-block-height-gap", "forged-block-previous-hash", "forged-block-previous-not-older",
 	"forged-block-consistent", "genesis-with-previous",
 }
 
@@ -532,6 +532,13 @@ func c13Forge(rt *rapid.T, c *c13Chain, idx int) (f c13Forgery) {
 		nodes := append([]fixedtree.Node(nil), p.Nodes()...)
 		nodes[len(nodes)-1] = nodes[len(nodes)-1].SetHash(real.Map.Manifest().StatesTree())
 		f.Proof = isaacblock.NewSuffrageProof(real.Map, st, fixedtree.NewProof(nodes))
+	case "appended-root":
+		// own self-consistent path, then one more node that only carries the real states-tree root: the path never hashes up to it
+		st := c13FakeState(h, base.Height(f.Target), prevHash, label, nFake)
+		_, p := ownTree(st.Hash().String())
+		nodes := append([]fixedtree.Node(nil), p.Nodes()...)
+		nodes = append(nodes, fixedtree.NewBaseNode("c13-appended-"+label).SetHash(real.Map.Manifest().StatesTree()))
+		f.Proof = isaacblock.NewSuffrageProof(real.Map, st, fixedtree.NewProof(nodes))
 	case "wrong-previous":
 		f.Proof = real.Proof
 
@@ -612,7 +619,7 @@ func TestC13(t *testing.T) {
 	defer r.Finish()
 	r.Rule("chains from the production path: 1..3 genesis nodes, 1..3 suffrage events (candidate+join / disjoin) with optional gap blocks and 0..11 filler states per block, " +
 		"so suffrage states sit in trees of 1..14 states; 20 proofs per chain: the real proofs from the database and forgeries {attacker state in an own self-consistent tree under the real signed map, " +
-		"real state with a foreign path, attacker state on the real path, proof of another block, one proof node renamed to the attacker's state hash, own tree with the real root hash grafted on, " +
+		"real state with a foreign path, attacker state on the real path, proof of another block, one proof node renamed to the attacker's state hash, own tree with the real root hash grafted on or appended as an extra node, " +
 		"wrong/fabricated previous state, fully attacker-made blocks (own manifest+tree+signature) whose state skips a suffrage height / names another previous / has a previous that is not older / is consistent, genesis with a previous}; " +
 		"every proof also goes through the JSON encoder. accepted := IsValid(networkID)==nil && Prove(previous)==nil. " +
 		"non-trivial: a forged proof that passes IsValid (so only Prove decides); distinct by (chain, kind, target, parameters)")
